@@ -528,13 +528,16 @@ func (env *SpecEnv) evalQuant(n *SNode) Val {
 		c := env.child(bind)
 		body := c.evalBool(n.Args[2])
 		if n.Args[0].Text == "oldrefs" {
+			// refs(T) ranges over all reference values (unallocated ones included: an invariant over refs(T) is a
+			// statement about every cell of the field heaps, and allocation initialises the cells it hands out);
+			// oldrefs(T) ranges over the references that already existed in the old() state
 			oldAlloc := env.st.fc.entryAlloc()
 			if env.old != nil && env.old.alloc != "" {
 				oldAlloc = env.old.alloc
 			}
 			var bs []string
 			for _, nm := range names {
-				bs = append(bs, sCmp("<", nm, oldAlloc))
+				bs = append(bs, sCmp("<=", "0", nm), sCmp("<", nm, oldAlloc))
 			}
 			if n.Op == "forall" {
 				body = sImp(sAnd(bs...), body)
